@@ -306,8 +306,15 @@ func (g *G) Command(depth int) *pb.Command {
 			c.Kv = &pb.KeyValue{Key: g.Key(), Value: g.Value()}
 		} else {
 			c.Type = pb.Command_SEQUENCE
+			// what the replication worker proposes: leader commands, most of them carrying their
+			// leader index (some at or below what the table has recorded already)
+			labelled := g.R.Intn(2) == 0
 			for i, m := 0, g.R.Intn(4); i < m; i++ {
 				sc := g.Command(depth - 1)
+				if labelled && g.R.Intn(5) > 0 {
+					v := uint64(g.R.Intn(60))
+					sc.LeaderIndex = &v
+				}
 				c.Sequence = append(c.Sequence, sc)
 			}
 		}
